@@ -138,5 +138,5 @@ def normal(e):
     if k == "un":
         return ("un", e[1], normal(e[2]))
     if k == "bin":
-        return ("bin", e[1], normal(e[2]), normal(e[3]))
+        return ("bin", {"=<": "<=", "=>": ">="}.get(e[1], e[1]), normal(e[2]), normal(e[3]))
     raise ValueError(e)
